@@ -109,11 +109,11 @@ Definition check_case (c : case) : bool :=
       let peq := lookup_peq pe in
       let hb := lookup_hashable hs in
       if same_params peq e1 e2 then
-        (* the modelled __eq__ agrees with the real one, and equal parameters give equal validators *)
-        Bool.eqb (veqb peq (build e1) (build e2)) seen_eq && seen_eq &&
-        (if params_hashable hb e1 && params_hashable hb e2
-         then vhashable hb (build e1) && vhashable hb (build e2) && seen_hash
-         else true)
+        (* equal parameters: the validators must compare equal, and hash equally when every
+           parameter hashes (only what the property states is compared; what the modelled
+           __eq__ / __hash__ say is shown by [model_of]) *)
+        seen_eq &&
+        (if params_hashable hb e1 && params_hashable hb e2 then seen_hash else true)
       else true      (* the property says nothing about unequal parameters *)
   | CX tbl => forallb (fun t => Bool.eqb (subclass (fst (fst t)) (snd (fst t))) (snd t)) tbl
   end.
